@@ -7,6 +7,10 @@ mod c16;
 mod c17;
 mod mem;
 
+// Every SelectExecutor allocates a zeroed 10 MiB arena per query; pool those blocks (see vcore::bigalloc)
+#[global_allocator]
+static GLOBAL: vcore::bigalloc::ArenaCache = vcore::bigalloc::ArenaCache;
+
 fn usage() -> ! {
     eprintln!("usage: idxmccheck check <C16|C17> <quick|thorough> | idxmccheck replay <path>");
     std::process::exit(2)
